@@ -621,8 +621,11 @@ func c17Queries(c *vk.Ctx, i int) {
 				continue
 			}
 			for id, s1 := range base {
-				if s1 <= 0 || math.IsNaN(s1) {
-					continue // judged by the positivity clause
+				if s1 <= 1e-12 || math.IsNaN(s1) {
+					// zero and negative scores are judged by the positivity clause; a score of 2e-16 is
+					// the rounding residue of a zero (fuzzy distance = term length, listed finding) and
+					// its ratio to anything is noise
+					continue
 				}
 				sb, ok := boosted[id]
 				if !ok {
